@@ -410,7 +410,15 @@ def rule_generator_in_field(ctx: Ctx, rep: Report) -> None:
     rep.floor(rule, 2)
 
 
+def rule_point_coordinates_unreduced_(ctx: Ctx, rep: Report) -> None:
+    """C01.point_coordinates_unreduced: no pair is built from a point's coordinates with the x reduced mod n (see sigcommon.rule_point_coordinates_unreduced)."""
+    from rules.sigcommon import rule_point_coordinates_unreduced
+    rule_point_coordinates_unreduced(ctx, rep, "C01.point_coordinates_unreduced", ('btclib.curves', 'btclib.ecc'))
+
+
 RULES = [
+    ("C01.point_coordinates_unreduced", rule_point_coordinates_unreduced_),
+
     ("C01.bindings_behind_dispatch", rule_bindings_behind_dispatch),
     ("C01.generator_in_field", rule_generator_in_field),
     ("C01.params_forwarded", rule_params_forwarded_),
